@@ -22,13 +22,16 @@ func (e *Enc) call(fr *Frame, st *State, c *ssa.CallCommon, in ssa.Instruction, 
 				as.Matched++
 				ec := e.evalCtx(fr, st)
 				cnd, err := ec.evalBool(as.Clause.Expr)
-				if err != nil {
-					e.failed = fmt.Errorf("%s:%d: %v", as.Clause.File, as.Clause.Line, err)
-					return nil
-				}
 				lab := as.Clause.Label
 				if lab == "" {
 					lab = "before " + as.Key
+				}
+				if err != nil {
+					// the keyed call exists but the assertion cannot be stated there (e.g. it names a
+					// local that does not exist at this call): not established - a failing obligation
+					o := e.oblig(st, "assert", lab+":cannot-be-stated-here", False, pos, as.Clause.Tags, as.Clause)
+					o.Desc = fmt.Sprintf("%s:%d: %v", as.Clause.File, as.Clause.Line, err)
+					continue
 				}
 				e.oblig(st, "assert", lab, cnd, pos, as.Clause.Tags, as.Clause)
 				e.assume(st, cnd)
